@@ -50,6 +50,11 @@ class TU:
         self._file = None
         self._line = None
         self._index(self.root, None, '')
+        # records/enums defined out of line (struct outer::inner { ... }) are lexically at namespace scope;
+        # name them by their semantic parent
+        for nid, n in list(self.by_id.items()):
+            if n.get('kind') in ('CXXRecordDecl', 'EnumDecl') and n.get('parentDeclContextId') in self.qual and n.get('name'):
+                self.qual[nid] = self.qual[n['parentDeclContextId']] + '::' + n['name']
 
     def _loc(self, l):
         if not isinstance(l, dict):
@@ -818,8 +823,18 @@ class Lowering:
 
     def s_IfStmt(self, n, fs):
         ks = kids(n)
-        if n.get('hasInit') or n.get('hasVar'):
-            raise Unsupported('if with init/var')
+        if n.get('hasInit'):
+            raise Unsupported('if with init statement')
+        if n.get('hasVar'):
+            # if (T x = init) A else B  ==  { T x = init; if (x) A else B }
+            decl, cond, rest = ks[0], ks[1], ks[2:]
+            dl = self.stmt(decl, fs)
+            ctx = Ctx(fs)
+            c = self.cond(cond, ctx)
+            out = dl + ctx.pre + ['if (%s)' % c] + self.block(rest[0], fs)
+            if n.get('hasElse') and len(rest) > 1:
+                out += ['else'] + self.block(rest[1], fs)
+            return ['{'] + self.indent(out, 1) + ['}']
         ctx = Ctx(fs)
         c = self.cond(ks[0], ctx)
         out = ctx.pre + ['if (%s)' % c] + self.block(ks[1], fs)
@@ -1496,6 +1511,14 @@ class Lowering:
             if len(args) == 1:
                 return '((%s)%s)' % (mapped, self.expr(args[0], ctx))
             raise Unsupported('construction of mapped scalar type %s with %d args' % (t, len(args)))
+        for pat, ct in self.typemap.items():
+            if re.fullmatch(pat, self.strip_cvref(t)) and self.typemap_is_record(pat):
+                # a class modelled by a C struct: default construction is the model's default; copies/moves
+                # from temporaries are struct copies
+                if len(args) == 0:
+                    return self.cfg.get('record_default', {}).get(ct, '(%s){0}' % ct)
+                if len(args) == 1 and self.is_temporary(args[0]):
+                    return self.expr(args[0], ctx)
         rec = self.find_record(self.strip_cvref(t))
         ext = self.extern_for(self.strip_cvref(t) + '::' + 'ctor|' + ctor_t)
         if ext:
@@ -1729,6 +1752,11 @@ class Lowering:
                 lhs = self.expr(args[0], ctx)
                 rhs = self.expr(args[1], ctx)
                 return '(%s = %s)' % (lhs, rhs)
+            if decl.get('name') == 'operator=' and self.mapped_scalar(self.strip_cvref(ty(args[0]))) is not None:
+                # assignment to an object whose class is modelled by a scalar (smart pointers as plain pointers)
+                lhs = self.expr(args[0], ctx)
+                rhs = self.expr(args[1], ctx)
+                return '(%s = (%s)%s)' % (lhs, self.mapped_scalar(self.strip_cvref(ty(args[0]))), rhs)
             obj = args[0]
             if self.this_by_value(decl):
                 this = self.expr(obj, ctx)
